@@ -233,8 +233,13 @@ def splice_struct(repo, rel, name, opts, log, meta):
         parsed = [p for p in parsed if p[0] in want]
         if dropped:
             log.append({"rule": "drop_fields", "fn": name, "where": "struct", "before": ",".join(dropped), "after": "", "count": len(dropped)})
-    extra = opts.get("ghost", "")
     body = "".join("    pub %s,\n" % p[1] for p in parsed)
+    if opts.get("ghost"):
+        # ghost=name:Type[;name2:Type2]  -- spec-only fields added to the extracted struct (logged)
+        for g in opts["ghost"].split(";"):
+            nm, ty = g.split(":", 1)
+            body += "    pub ghost %s: %s,\n" % (nm, ty.replace("~", " "))
+        log.append({"rule": "ghost-field", "fn": name, "where": "struct", "before": "", "after": opts["ghost"], "count": 1})
     head = re.sub(r"^pub(\s*\([^)]*\))?\s+", "", head.strip())
     derive = "#[derive(%s)]\n" % opts["derive"] if opts.get("derive") else ""
     meta.append({"file": rel, "item": "struct " + name, "repo_lines": [src.count("\n", 0, st) + 1, src.count("\n", 0, end) + 1], "name": name})
